@@ -856,7 +856,10 @@ pub fn run_history(acc: &mut Acc, r: &mut Rng, steps: u64, variant: u64) {
             if wd.pair.is_some() {
                 let dur = *r.pick(&durs);
                 let fault = if r.chance(1, 3) { r.range(1, 2) as u8 } else { 0 };
-                op_helper_deposit(acc, &mut wd, ui, r.range128(1_000, 1_000_000_000), dur.clamp(MIN_DUR, MAX_DUR), fault);
+                // one helper deposit in eight names an unbonding duration the incentive contract refuses: the liquidity
+                // has been provided by then, so the whole transaction has to revert (nothing may stay with the helper)
+                let dur = if r.chance(1, 8) { acc.count("helper.deposit.with-refused-duration"); *r.pick(&[MIN_DUR - 1, MAX_DUR + 1, 0]) } else { dur.clamp(MIN_DUR, MAX_DUR) };
+                op_helper_deposit(acc, &mut wd, ui, r.range128(1_000, 1_000_000_000), dur, fault);
             }
             class.push(5);
         } else if op < 62 {
